@@ -46,6 +46,7 @@ EXPLANATION = (
     "(E1, ctors) a package constructor's raise-set is what its __init__/__post_init__ raises. "
     "(E2, type) the receive buffer is an immutable bytes value (a binary body is handed out as bytes)."
     " (E8) LocationConfig.from_dict, run abstractly for a table without a `timeout` key, passes a number (never None) as timeout on every feasible path: the wait_for bound of E4 exists. (E9) the client's match of a parameter name against 'charset' sits in a loop / comprehension over all `;`-separated parameters. (E10) the status token reaches int() only behind an ASCII-digit test (re.fullmatch on a digit class, or isascii() and isdigit()); E2 is evaluated on exact header samples, including malformed tokens that int() alone reads as 20."
+    " (E11) stateless client (see C11.F6): no shared 'current transport' slot that overlapping fetches close for each other."
 )
 
 PROTOS = ["client.protocol:GeminiClientProtocol", "client.protocol:TitanClientProtocol"]
@@ -504,5 +505,8 @@ def run(chk: Check) -> None:
 
     _cp = chk.proj.module("client.protocol")
     charset_scan_covers_all(chk, "E9", [("client.protocol", list(_cp.functions.values()) + [m for c in _cp.classes.values() for m in c.methods.values()])], "a text body is decoded as UTF-8 although the meta declares another charset")
+    from .common import client_stateless
+
+    client_stateless(chk, "E11", "overlapping fetches on one client share the slot: the fetch that finishes first closes the other one's transport, which then returns a truncated body as a success")
     chk.trusted = ["CPython ast parser", "engine CFG / abstract evaluator / builtin exception hierarchy", "asyncio calls connection_lost exactly once after the peer closed or after transport.close()"]
     chk.assumptions = ["exceptions outside the three-entry raise-set catalogue are not modelled", "promptness of EOF delivery by asyncio is trusted"]
